@@ -3,6 +3,7 @@ import RainModel.Lemmas.Blocks
 import RainModel.Model.Geometry
 import RainModel.Lemmas.Geometry
 import RainModel.Lemmas.SectionIO
+import RainModel.Lemmas.Jobs
 /-!
 C02 — piece/file geometry.  Property theorems only; helper lemmas live in `Lemmas/`.
 -/
@@ -155,5 +156,51 @@ example : readAt [.data [1, 2]] [⟨0, 0, 2, false, 1⟩] 3 1 = .panic ∧
     write [.padding] [⟨0, 0, 1, false, 1⟩] [5] 0 = .panic := by decide
 
 end ReadWrite
+
+/-! ### `urldownloader.createJobs` -/
+section Jobs
+open Rain.Geometry
+
+/-- **jobs_cover.** For every accepted metainfo (`WF`, and file names as `NewInfo` leaves them:
+none empty, no two non-padding files with the same name — `namesOK`) and every piece range
+`begin ≤ end ≤ numPieces`, `createJobs` on the pieces built by `NewPieces` does not panic and its
+job list, read in order, reproduces the byte stream of the sections of pieces `[begin, end)`
+token by token (`JobsCover`, the predicate the check evaluates on the implementation's output):
+a byte of a non-padding section `(name, offset)` is byte `RangeBegin + k` of a job with that
+file name, padding sections are covered by padding jobs (zeros, never requested), and no job is
+empty (zero-length files are dropped).  Also covers `begin > 0`, where the Go code never takes its
+`i == 0 && j == 0` initialisation branch and relies on the zero job being unmergeable. -/
+theorem jobs_cover (files : List FileEnt) (pl n L : Nat) (h : WF files pl n L) (hnames : namesOK files = true)
+    (b e : Nat) (hbe : b ≤ e) (he : e ≤ n) :
+    ∃ ps steps jobs, newPieces files pl n L = .ok (ps, steps) ∧ createJobs ps b e = some jobs ∧
+      JobsCover (secsOfRange ps b e) jobs = true := by
+  obtain ⟨ps, st, hrun, ht, hmeta, q, hwalk⟩ := newPieces_spec files pl n L h
+  have hlen : ps.length = n := by
+    simp only [TilesFiles, Bool.and_eq_true, beq_iff_eq] at ht
+    exact ht.1.1.1.1.1
+  obtain ⟨jobs, hj, hc⟩ := createJobs_cover hnames ps (0, 0) q hwalk hmeta b e hbe (by omega)
+  exact ⟨ps, st, jobs, hrun, hj, hc⟩
+
+/-- Non-vacuity: data file 1 (3 bytes), an empty file 2, a padding file (2 bytes, name 102), data
+file 4 (4 bytes), piece length 4.  Jobs for pieces `[1, 3)` start in the middle of the padding
+file; the empty file is dropped in `[0, 3)`. -/
+example :
+    let files : List FileEnt := [⟨3, false, 1⟩, ⟨0, false, 2⟩, ⟨2, true, 102⟩, ⟨4, false, 4⟩]
+    WF files 4 3 9 ∧ namesOK files = true ∧
+    ∃ ps st, newPieces files 4 3 9 = .ok (ps, st) ∧
+      createJobs ps 0 3 = some [⟨1, 0, 3, false⟩, ⟨102, 0, 2, true⟩, ⟨4, 0, 4, false⟩] ∧
+      createJobs ps 1 3 = some [⟨102, 1, 1, true⟩, ⟨4, 0, 4, false⟩] := by
+  refine ⟨by decide, by decide, _, _, rfl, by decide, by decide⟩
+
+/-- The name hypothesis matters: two *non-padding* files with one name (rejected by `NewInfo` as
+"duplicate file name") are merged into one job that does not cover the sections. -/
+example :
+    let files : List FileEnt := [⟨2, false, 7⟩, ⟨2, false, 7⟩]
+    namesOK files = false ∧
+    ∃ ps st, newPieces files 4 1 4 = .ok (ps, st) ∧
+      createJobs ps 0 1 = some [⟨7, 0, 4, false⟩] ∧ JobsCover (secsOfRange ps 0 1) [⟨7, 0, 4, false⟩] = false := by
+  refine ⟨by decide, _, _, rfl, by decide, by decide⟩
+
+end Jobs
 
 end Rain.Props.C02
